@@ -309,6 +309,16 @@ def plan_for(prop, tier, seed):
         p.families = [("testimage-display", True, "dev", lambda ids, rng: G.f_testimage_display(ids, rng, q))]
     else:
         raise ToolError("no plan for property %s" % prop)
+    # iterators that are not fused: a stream ends at its first None (all entry points that take a stream)
+    NF = {"C01": ("rec", "spi", "p8", "p16"), "C03": ("rec", "spi", "p8"), "C04": ("rec", "spi"), "C05": ("spi", "p8", "p16"),
+          "C06": ("spi",), "C07": ("p8", "p16"), "C08": ("rec", "spi", "p8", "p16")}
+    if prop in NF:
+        ifs = NF[prop]
+        tg = "colour" if prop == "C05" else "nonfused"
+        p.families.append(("nonfused", True, "dev", lambda ids, rng: G.f_nonfused(ids, rng, n=120 if q else 4000, ifaces=ifs, tag=tg,
+                                                                                  xport=prop in ("C05", "C06", "C07", "C08"))))
+        if prop in ("C01", "C03", "C08"):
+            p.families.append(("nonfused-nobatch", False, "dev", lambda ids, rng: G.f_nonfused(ids, rng, n=40 if q else 1000, ifaces=("rec", "spi"), tag=tg, xport=False)))
     if not q:
         # thorough tier: the same programs on a release-like build (no overflow checks, no debug assertions): a
         # debug-only panic is a silently wrapped value there, and both are violations of different clauses
